@@ -32,6 +32,11 @@ pub enum EvEdit {
     FullRing,
     AllChannels { board: u16, chip: u8 },
     Suppressed16 { board: u8, channel: u8 },
+    /// copy pad p's waveform onto `n` neighbouring rows above it (identical raw
+    /// waveforms on adjacent pads: a saturated or test-pattern chip)
+    ClonePadRows { p: u16, n: u8 },
+    /// copy wire w's waveform onto `n` following wires
+    CloneWires { w: u16, n: u8 },
 }
 
 fn ev_edit(tier: Tier) -> impl Strategy<Value = EvEdit> {
@@ -46,6 +51,8 @@ fn ev_edit(tier: Tier) -> impl Strategy<Value = EvEdit> {
         1 => Just(EvEdit::FullRing),
         2 => (any::<u16>(), 0u8..4).prop_map(|(board, chip)| EvEdit::AllChannels { board, chip }),
         1 => (0u8..8, 0u8..32).prop_map(|(board, channel)| EvEdit::Suppressed16 { board, channel }),
+        3 => (any::<u16>(), 1u8..6).prop_map(|(p, n)| EvEdit::ClonePadRows { p, n }),
+        2 => (any::<u16>(), 1u8..12).prop_map(|(w, n)| EvEdit::CloneWires { w, n }),
     ]
 }
 
@@ -88,6 +95,22 @@ impl C09Case {
                     ev.pad_samples = n;
                     for p in &mut ev.pads {
                         p.samples.truncate(n as usize);
+                    }
+                }
+                EvEdit::ClonePadRows { p, n } if !ev.pads.is_empty() => {
+                    let src = ev.pads[pick(p, ev.pads.len())].clone();
+                    for d in 1..=n as u16 {
+                        let row = (src.row + d) % 576;
+                        ev.pads.retain(|x| !(x.column == src.column && x.row == row));
+                        ev.pads.push(PadSignal { column: src.column, row, samples: src.samples.clone() });
+                    }
+                }
+                EvEdit::CloneWires { w, n } if !ev.wires.is_empty() => {
+                    let src = ev.wires[pick(w, ev.wires.len())].clone();
+                    for d in 1..=n as u16 {
+                        let wire = (src.wire + d) % 256;
+                        ev.wires.retain(|x| x.wire != wire);
+                        ev.wires.push(WireBank { wire, samples: src.samples.clone() });
                     }
                 }
                 EvEdit::FullRing => {
